@@ -20,7 +20,7 @@ BOUNDS = {"quick": "operation kinds: Fock Creation / Annihilation / PhaseShift /
 OPTS = {"quick": {"max_paths": 96, "timeout_ms": 10000, "case_timeout_s": 900},
         "thorough": {"max_paths": 192, "timeout_ms": 30000, "case_timeout_s": 1800}}
 
-KINDS = ["fock.Creation", "fock.Annihilation", "fock.PhaseShift", "fock.Custom", "fock.Expresion", "pol.RX", "pol.CustomNumpy",
+KINDS = ["comp.ExprFF", "fock.Creation", "fock.Annihilation", "fock.PhaseShift", "fock.Custom", "fock.Expresion", "pol.RX", "pol.CustomNumpy",
          "custom.Custom", "comp.CX", "comp.ExprPC", "comp.ExprCP"]
 INTERLEAVE = ["none", "construct-sibling", "apply-sibling"]
 
@@ -56,6 +56,13 @@ def _world(kind):
         w = cm.world(S, [{"kind": "own", "sub": "c0", "level": "V"},
                          {"kind": "ps", "ce": 0, "members": ["p0", "c1"], "level": "V"}], [["e0", "c1"]])
         return w, [["c0"], ["c1"]]
+    if kind == "comp.ExprFF":
+        # two Fock operands whose automatically chosen dimensions are (2,3) for the first and (3,2) for the second target pair
+        S = cm.subs(4, 0, [3, 3, 3, 3])
+        w = cm.world(S, [{"kind": "own", "sub": "f0", "level": "L", "label": 1}, {"kind": "own", "sub": "f1", "level": "L", "label": 2},
+                         {"kind": "own", "sub": "f2", "level": "L", "label": 2}, {"kind": "own", "sub": "f3", "level": "L", "label": 1}],
+                     [["e0", "e1", "e2", "e3"]])
+        return w, [["f0", "f1"], ["f2", "f3"]]
     S = cm.subs(2, 2, 2, 2)
     blocks = [{"kind": "own", "sub": "p0", "level": "V"}, {"kind": "own", "sub": "c0", "level": "V"},
               {"kind": "ps", "ce": 0, "members": ["c1", "p1"], "level": "V"}]
@@ -104,6 +111,21 @@ def _make(B, kind, tag, W):
         from harness.C03 import _gate_matrix
 
         return Operation(CompositeOperationType.CXPolarization), (lambda d: _gate_matrix(B, "CX")), True, user, 0
+    if kind == "comp.ExprFF":
+        def num(d):
+            M = ref.zeros((d, d), B.like())
+            for n in range(d):
+                M[n, n] = ref.const(n, B.like())
+            return M
+
+        def quad(d):
+            # (lowers the photon number: stays inside the automatically chosen cut-off occupation + 1)
+            return cm.annihilation(B, d)
+
+        wrap = lambda M: B.jnp.array(M) if B.mode == "real" else B.jnp.ndarray(M)
+        ctx = {"n0": lambda dims: wrap(num(int(dims[0]))), "x1": lambda dims: wrap(quad(int(dims[1])))}
+        op = Operation(CompositeOperationType.Expression, expr=("kron", "n0", "x1"), state_types=("Fock", "Fock"), context=ctx)
+        return op, (lambda d: ref.kron(num(d[0]), quad(d[1]))), True, user, 0
     if kind in ("comp.ExprPC", "comp.ExprCP"):
         M = B.operator("U" + tag, 4)
         types = ("Polarization", "CustomState") if kind == "comp.ExprPC" else ("CustomState", "Polarization")
